@@ -5,10 +5,16 @@ CFG = dict(
     pkg="c09",
     tests=["TestC09"],
     n_quick=12, n_thorough=80, shards_thorough=4, timeout_quick=900, timeout_thorough=3000,
-    rule="corpus + 16 boundary scenarios (Byzantine garbage / replay / mutate / crafted-unchecked results, work seen by f vs f+1 honest nodes, "
+    rule="corpus + 25 boundary scenarios (Byzantine garbage / replay / mutate / crafted-unchecked results, work seen by f vs f+1 honest nodes, "
          "f Byzantine + 1 honest voucher, restart between accept and transmit, restart + re-delivered log + re-batching, perform / stale / reorg / "
-         "insufficient-funds events with duplicates and too few confirmations, reports withheld from a node, lockout expiry, 130 candidates, f=0) "
-         "+ VERIF_N random schedules (n in {4,7,10}, random member subsets of size >= 2f+1, restarts, events, sleeps) from one PRNG; each scenario "
+         "insufficient-funds events with duplicates and too few confirmations, reports withheld from a node, lockout expiry, 130 candidates, f=0; "
+         "conditional upkeeps through the whole cycle sampled -> proposed -> surfaced on the quorum block -> coordinated -> checked -> agreed -> "
+         "performed -> still eligible -> again, three times, under every Byzantine mode; the perform event polled before a late accept; a stale-report "
+         "event between cycles; 2f+1 members only) "
+         "+ VERIF_N random schedules (n in {4,7,10}, random member subsets of size >= 2f+1, restarts, events, sleeps; half of them end in a calm tail with fresh conditional upkeeps going twice through the cycle) from one PRNG; "
+         "liveness obligations (work id, round window) are recorded by the harness ONLY where it has checked the premise itself: >= 2f+1 honest nodes "
+         "up and members of every round of the window, the work active and eligible on all of them, no report with it awaiting a confirmed event, "
+         "no restart inside the window; bound = 5 rounds of 3 s (25+2 when the work may sit in the surfaced history on an overtaken block); each scenario "
          "runs n REAL plug-in instances (public factory, real flows/stores/coordinator, own logging check pipeline) in one testing/synctest bubble, "
          "the harness playing libocr; after every round and event batch every honest node is asked ShouldTransmit for every report ever produced; "
          "non-trivial = some honest node was willing to transmit something; distinct = structural hash of the scenario",
@@ -20,6 +26,7 @@ CFG = dict(
                  "libocr delivers only attested reports of earlier outcomes (Accept precondition in the model)"],
     modelled="round-level network model over the Outcome model: per-node checked/staged/accepted sets, Byzantine members as arbitrary bytes; "
              "the coordinator's pending/transmit bookkeeping is C06/C07's model and is exercised here, not re-modelled",
-    partial="liveness is proved for one round only (C09_live_partial); 'no two different reports for one unit of work at once' is refuted (F09); "
+    partial="liveness: the links of the cycle are theorems in three model vocabularies (C09_live_surfaced, _coordinated_is_dequeued, "
+            "_checked_is_viewed, _partial) that are not composed into one function; the end-to-end bound is decided on the real nodes by K09_live; 'no two different reports for one unit of work at once' is refuted (F09); "
             "schedules are sampled",
 )
